@@ -128,13 +128,19 @@ def decode(model, heap, v, ctx, seen, depth=0):
     return None
 
 
-def solve(ob, want_model=None, timeout_ms=None):
+def solve(ob, want_model=None, timeout_ms=None, relax=False):
+    """relax=True (model search only): quantified assumptions are dropped; any model found is only a *candidate*
+    input that must be confirmed by replay on the real code"""
     t0 = time.time()
     if z3.is_true(ob.goal):
         return "unsat", 0.0, None, "closed"
     s = z3.Solver()
     s.set("timeout", timeout_ms or TIMEOUT_MS)
-    s.add(*ob.assumptions)
+    if relax:
+        from .engine import _has_quant
+        s.add(*[a for a in ob.assumptions if not _has_quant(a)])
+    else:
+        s.add(*ob.assumptions)
     s.add(z3.Not(ob.goal))
     r = s.check()
     model = None
@@ -334,7 +340,7 @@ def _verify(qual, repo, ctx, bound, second_solver, fast, case):
         n_obl = 0
         n_ext = 0
         for ob in X.obls:
-            res, dt, model, backend = solve(ob, mk_decoder(ob), 1500 if fast else None)
+            res, dt, model, backend = solve(ob, mk_decoder(ob), 1500 if fast else None, relax=fast)
             others = []
             if fast:
                 pass
